@@ -93,7 +93,8 @@ Proof. vm_compute. reflexivity. Qed.
    type list that accepts strings - and arrays, when [allow_arr] lets the data hold arrays: elsewhere the type.go:200
    shortcut lives, a recorded finding), items (one or positional) with additionalItems, uniqueItems, properties (a default
    only on members that are not required) / required / additionalProperties / min- and maxProperties, dependencies, allOf,
-   anyOf, oneOf, not, at every depth; no nullable, patternProperties, empty tuples, nor a schema next to additional*: false -
+   anyOf, oneOf, not, patternProperties (patterns that compile), at every depth; no nullable, empty tuples, nor a schema next to
+   an additionalItems / additionalProperties that is false -
    and JSON data of the class [jd] - objects with distinct members none of which is called "$schema", "id" or "headers";
    null anywhere in the data when [allow_null] is set, in which case the schema must be free of allOf / anyOf / oneOf / not at
    every level (the null-under-composition finding lives there); arrays anywhere when [allow_arr] is set - the verdict of the
@@ -251,3 +252,20 @@ Proof.
            (jd_b_sound f_finite an aa fuel d Hd) Hf1 Hf2).
 Qed.
 Print Assumptions C01_recursive_agreement_for_the_binary64_model.
+
+(* patternProperties are inside the fragment when every pattern compiles: {"patternProperties":{"^x-":{"type":"number"}},
+   "additionalProperties":false} with an oracle that knows the pattern *)
+Definition c01_pat_oracles : oracles :=
+  {| o_rune_len := fun _ => 0; o_re_ok := fun _ => true; o_re_match := fun pat k => Z.eqb pat 70 && Z.eqb k 71;
+     o_fmt_known := fun _ => false; o_fmt_check := fun _ _ => true |}.
+Definition c01_pat_schema : schema :=
+  set_pat_props [(70, set_types [k_number] empty_schema)] (set_add_props (Some (false, None)) empty_schema).
+Example C01_pattern_properties_in_fragment :
+  clean_b (fun _ => true) false true c01_pat_oracles 3 c01_pat_schema = true /\
+  (exists r, sv_validate c01_pat_oracles z_ops opt0 [] 5 c01_pat_schema [SRoot 0] [SRoot 0] (VObj 1 [(71, VFlt false 3)]) = Ok r /\ r_valid r = true) /\
+  (exists r, sv_validate c01_pat_oracles z_ops opt0 [] 5 c01_pat_schema [SRoot 0] [SRoot 0] (VObj 1 [(71, VStr 9)]) = Ok r /\ r_valid r = false) /\
+  (exists r, sv_validate c01_pat_oracles z_ops opt0 [] 5 c01_pat_schema [SRoot 0] [SRoot 0] (VObj 1 [(72, VFlt false 3)]) = Ok r /\ r_valid r = false).
+Proof.
+  split; [vm_compute; reflexivity|].
+  repeat split; (eexists; split; [vm_compute; reflexivity | reflexivity]).
+Qed.
